@@ -4,6 +4,7 @@ import (
 	"context"
 	"encoding/json"
 	"fmt"
+	"net/url"
 	"sort"
 	"strings"
 
@@ -32,12 +33,12 @@ func c04Base(variant int) gen.S {
 		return gen.S{"application/json": gen.S{"schema": gen.S{"$ref": ref}, "examples": gen.S{"one": gen.S{"value": gen.S{"id": 2.0, "name": "tom"}}}}}
 	}
 	doc := gen.S{
-		"openapi": "3.0.3",
-		"info":    gen.S{"title": "base", "version": "1.0", "license": gen.S{"name": "MIT"}, "contact": gen.S{"name": "c", "email": "c@x.y"}},
-		"servers": gen.Arr(gen.S{"url": "https://{env}.example.com/v1", "variables": gen.S{"env": gen.S{"default": "prod", "enum": gen.Arr("prod", "dev")}}}),
-		"tags":    gen.Arr(gen.S{"name": "pets", "externalDocs": gen.S{"url": "https://docs.example.com"}}),
+		"openapi":      "3.0.3",
+		"info":         gen.S{"title": "base", "version": "1.0", "license": gen.S{"name": "MIT"}, "contact": gen.S{"name": "c", "email": "c@x.y"}},
+		"servers":      gen.Arr(gen.S{"url": "https://{env}.example.com/v1", "variables": gen.S{"env": gen.S{"default": "prod", "enum": gen.Arr("prod", "dev")}}}),
+		"tags":         gen.Arr(gen.S{"name": "pets", "externalDocs": gen.S{"url": "https://docs.example.com"}}),
 		"externalDocs": gen.S{"url": "https://docs.example.com/all"},
-		"security": gen.Arr(gen.S{"key": gen.Arr()}),
+		"security":     gen.Arr(gen.S{"key": gen.Arr()}),
 		"paths": gen.S{
 			"/pets": gen.S{
 				"parameters": gen.Arr(gen.S{"name": "trace", "in": "header", "schema": str(), "example": "abc"}),
@@ -55,7 +56,7 @@ func c04Base(variant int) gen.S {
 						"default": gen.S{"$ref": "#/components/responses/Error"}}},
 				"post": gen.S{"operationId": "createPet",
 					"requestBody": gen.S{"required": true, "content": gen.S{
-						"application/json":    gen.S{"schema": gen.S{"$ref": "#/components/schemas/Pet"}, "examples": gen.S{"e": gen.S{"$ref": "#/components/examples/PetExample"}}},
+						"application/json": gen.S{"schema": gen.S{"$ref": "#/components/schemas/Pet"}, "examples": gen.S{"e": gen.S{"$ref": "#/components/examples/PetExample"}}},
 						"multipart/form-data": gen.S{"schema": gen.S{"type": "object", "properties": gen.S{"file": gen.S{"type": "string", "format": "binary"}, "meta": gen.S{"$ref": "#/components/schemas/Pet"}}},
 							"encoding": gen.S{"meta": gen.S{"contentType": "application/json", "headers": gen.S{"X-Part": gen.S{"schema": str()}}}}}}},
 					"responses": gen.S{"201": gen.S{"description": "created", "content": okJSON("#/components/schemas/Pet")}, "4XX": gen.S{"$ref": "#/components/responses/Error"}},
@@ -64,7 +65,7 @@ func c04Base(variant int) gen.S {
 					"security": gen.Arr(gen.S{"oauth": gen.Arr("write")}, gen.S{})}},
 			"/pets/{petId}": gen.S{
 				"parameters": gen.Arr(gen.S{"name": "petId", "in": "path", "required": true, "schema": gen.S{"type": "integer"}}),
-				"get": gen.S{"operationId": "getPet", "responses": gen.S{"200": gen.S{"description": "one", "content": okJSON("#/components/schemas/Pet")}, "404": gen.S{"$ref": "#/components/responses/Error"}}},
+				"get":        gen.S{"operationId": "getPet", "responses": gen.S{"200": gen.S{"description": "one", "content": okJSON("#/components/schemas/Pet")}, "404": gen.S{"$ref": "#/components/responses/Error"}}},
 				// names are case-sensitive (outside headers) and unique per (name, in) only
 				"delete": gen.S{"operationId": "deletePet", "parameters": gen.Arr(gen.S{"name": "force", "in": "cookie", "schema": gen.S{"type": "boolean"}}, gen.S{"name": "Force", "in": "cookie", "schema": gen.S{"type": "boolean"}},
 					gen.S{"name": "force", "in": "query", "schema": gen.S{"type": "boolean"}}, gen.S{"name": "FORCE", "in": "query", "schema": gen.S{"type": "boolean"}}), "responses": gen.S{"204": gen.S{"description": "gone"}}}},
@@ -75,10 +76,10 @@ func c04Base(variant int) gen.S {
 					"requestBody": gen.S{"$ref": "#/components/requestBodies/Move"}, "responses": gen.S{"200": gen.S{"description": "moved"}}}},
 		},
 		"components": gen.S{
-			"schemas":    gen.S{"Pet": pet, "Owner": owner, "Choice": choice, "Error": errSchema},
-			"parameters": gen.S{"Session": gen.S{"name": "session", "in": "cookie", "required": true, "schema": gen.S{"type": "string", "minLength": 8.0}}},
-			"headers":    gen.S{"Shared": gen.S{"description": "h", "schema": gen.S{"type": "array", "items": str()}, "style": "simple"}},
-			"responses":  gen.S{"Error": gen.S{"description": "error", "content": gen.S{"application/json": gen.S{"schema": gen.S{"$ref": "#/components/schemas/Error"}}, "text/plain": gen.S{"schema": str(), "example": "oops"}}}},
+			"schemas":       gen.S{"Pet": pet, "Owner": owner, "Choice": choice, "Error": errSchema},
+			"parameters":    gen.S{"Session": gen.S{"name": "session", "in": "cookie", "required": true, "schema": gen.S{"type": "string", "minLength": 8.0}}},
+			"headers":       gen.S{"Shared": gen.S{"description": "h", "schema": gen.S{"type": "array", "items": str()}, "style": "simple"}},
+			"responses":     gen.S{"Error": gen.S{"description": "error", "content": gen.S{"application/json": gen.S{"schema": gen.S{"$ref": "#/components/schemas/Error"}}, "text/plain": gen.S{"schema": str(), "example": "oops"}}}},
 			"requestBodies": gen.S{"Move": gen.S{"content": gen.S{"application/x-www-form-urlencoded": gen.S{"schema": gen.S{"type": "object", "properties": gen.S{"to": str()}}, "encoding": gen.S{"to": gen.S{"style": "form", "explode": true}}}}}},
 			"examples":      gen.S{"PetExample": gen.S{"summary": "s", "value": gen.S{"id": 3.0, "name": "bo"}}},
 			"links":         gen.S{"Self": gen.S{"operationRef": "#/paths/~1pets/get", "description": "self"}},
@@ -92,7 +93,9 @@ func c04Base(variant int) gen.S {
 		},
 	}
 	// a path whose parameter is declared per operation (not at path level), in several operations
-	thing := func() gen.S { return gen.S{"name": "thingId", "in": "path", "required": true, "schema": gen.S{"type": "string"}} }
+	thing := func() gen.S {
+		return gen.S{"name": "thingId", "in": "path", "required": true, "schema": gen.S{"type": "string"}}
+	}
 	dig(doc, "paths")["/things/{thingId}"] = gen.S{
 		"delete": gen.S{"operationId": "delThing", "parameters": gen.Arr(thing()), "responses": gen.S{"204": gen.S{"description": "gone"}}},
 		"get":    gen.S{"operationId": "getThing", "parameters": gen.Arr(thing(), gen.S{"name": "v", "in": "query", "schema": gen.S{"description": "annotation-only schema"}}), "responses": gen.S{"200": gen.S{"description": "ok", "content": gen.S{"application/json": gen.S{"schema": gen.S{"title": "free form"}}}}}},
@@ -246,13 +249,13 @@ func c04Walk(doc gen.S) []c04loc {
 // ---- rule catalogue ----
 
 type c04rule struct {
-	name     string
-	kind     string
-	apply    func(l c04loc) bool // mutates l.obj in place; false = not applicable here
-	disabled string              // name of the option set that switches this rule off ("" = none)
-	needs    string              // the rule is only enforced when this option set is on
-	contested string             // option set under which this rule carries no verdict
-	unload   bool                // apply to a document unmarshalled WITHOUT the loader (unresolved refs)
+	name      string
+	kind      string
+	apply     func(l c04loc) bool // mutates l.obj in place; false = not applicable here
+	disabled  string              // name of the option set that switches this rule off ("" = none)
+	needs     string              // the rule is only enforced when this option set is on
+	contested string              // option set under which this rule carries no verdict
+	unload    bool                // apply to a document unmarshalled WITHOUT the loader (unresolved refs)
 }
 
 func typeOf(s gen.S) string { t, _ := s["type"].(string); return t }
@@ -272,7 +275,9 @@ func c04Rules() []c04rule {
 	}
 	extra := func(l c04loc) bool { l.obj["bogusField"] = 1.0; return true }
 	var rules []c04rule
-	add := func(name, kind string, f func(l c04loc) bool) { rules = append(rules, c04rule{name: name, kind: kind, apply: f}) }
+	add := func(name, kind string, f func(l c04loc) bool) {
+		rules = append(rules, c04rule{name: name, kind: kind, apply: f})
+	}
 	for _, k := range []string{"root", "info", "contact", "license", "server", "serverVariable", "tag", "externalDocs", "pathItem", "operation", "parameter", "header", "requestBody", "response", "mediaType", "encoding", "schema", "example", "link", "securityScheme"} {
 		r := c04rule{name: "extra-non-extension-field", kind: k, apply: extra, disabled: "AllowExtraSiblingFields(bogusField)"}
 		if k == "example" {
@@ -302,7 +307,13 @@ func c04Rules() []c04rule {
 		l.obj["content"] = gen.S{"application/json": gen.S{"schema": gen.S{"type": "string"}}}
 		return true
 	})
-	add("parameter-neither-schema-nor-content", "parameter", func(l c04loc) bool { delete(l.obj, "schema"); delete(l.obj, "content"); delete(l.obj, "example"); delete(l.obj, "examples"); return true })
+	add("parameter-neither-schema-nor-content", "parameter", func(l c04loc) bool {
+		delete(l.obj, "schema")
+		delete(l.obj, "content")
+		delete(l.obj, "example")
+		delete(l.obj, "examples")
+		return true
+	})
 	add("parameter-content-two-entries", "parameter", func(l c04loc) bool {
 		c, ok := l.obj["content"].(gen.S)
 		if !ok {
@@ -488,7 +499,10 @@ func c04Rules() []c04rule {
 	})
 	rules = append(rules, c04rule{name: "example-value-and-externalValue", kind: "example", contested: "DisableExamplesValidation", apply: func(l c04loc) bool { l.obj["value"], l.obj["externalValue"] = 1.0, "http://e.x/v"; return true }})
 	add("link-without-operation", "link", func(l c04loc) bool { delete(l.obj, "operationId"); delete(l.obj, "operationRef"); return true })
-	add("link-both-operationId-and-operationRef", "link", func(l c04loc) bool { l.obj["operationId"], l.obj["operationRef"] = "getPet", "#/paths/~1pets/get"; return true })
+	add("link-both-operationId-and-operationRef", "link", func(l c04loc) bool {
+		l.obj["operationId"], l.obj["operationRef"] = "getPet", "#/paths/~1pets/get"
+		return true
+	})
 	// path template / parameter rules
 	add("template-variable-without-parameter", "pathItem", func(l c04loc) bool {
 		if !strings.Contains(l.tmpl, "{") {
@@ -570,33 +584,36 @@ type c04optset struct {
 }
 
 func c04OptionSets() []c04optset {
+	// option values are built once and reused for every call of the process, alone and together with others
+	allowBogus, allowOther := openapi3.AllowExtraSiblingFields("bogusField"), openapi3.AllowExtraSiblingFields("other")
 	return []c04optset{
+		{"AllowExtraSiblingFields(other)+AllowExtraSiblingFields(bogusField)", []openapi3.ValidationOption{allowOther, allowBogus}},
 		{"default", nil},
 		{"DisableExamplesValidation", []openapi3.ValidationOption{openapi3.DisableExamplesValidation()}},
 		{"DisableSchemaDefaultsValidation", []openapi3.ValidationOption{openapi3.DisableSchemaDefaultsValidation()}},
 		{"DisableSchemaPatternValidation", []openapi3.ValidationOption{openapi3.DisableSchemaPatternValidation()}},
 		{"EnableSchemaFormatValidation", []openapi3.ValidationOption{openapi3.EnableSchemaFormatValidation()}},
-		{"AllowExtraSiblingFields(bogusField)", []openapi3.ValidationOption{openapi3.AllowExtraSiblingFields("bogusField")}},
+		{"AllowExtraSiblingFields(bogusField)", []openapi3.ValidationOption{allowBogus}},
 		{"ProhibitExtensionsWithRef", []openapi3.ValidationOption{openapi3.ProhibitExtensionsWithRef()}},
-		{"AllowExtraSiblingFields(other)", []openapi3.ValidationOption{openapi3.AllowExtraSiblingFields("other")}},
+		{"AllowExtraSiblingFields(other)", []openapi3.ValidationOption{allowOther}},
 	}
 }
 
 type c04Witness struct {
-	Base     int      `json:"base_variant"`
-	Rule     string   `json:"rule"`
-	Pointer  string   `json:"location"`
-	Where    string   `json:"location_class"`
-	Options  string   `json:"options"`
-	Got      string   `json:"got"`
-	Want     string   `json:"want"`
-	Document string   `json:"document"`
+	Base     int    `json:"base_variant"`
+	Rule     string `json:"rule"`
+	Pointer  string `json:"location"`
+	Where    string `json:"location_class"`
+	Options  string `json:"options"`
+	Got      string `json:"got"`
+	Want     string `json:"want"`
+	Document string `json:"document"`
 }
 
 func init() {
 	core.Register(&core.Check{
 		ID:   "C04",
-		Rule: "base documents: hand-written conforming documents (2 variants + documents derived by deleting optional subtrees) using every container (components of 9 kinds, path items, operations, parameters of all locations/styles incl. content-defined, request bodies, responses, headers, media types, encodings, callbacks, links, nested/recursive schemas, 5 security scheme types, servers with variables); each must be accepted under all 8 option sets. Mutants: for each of ~65 rules (missing required field per kind, illegal in/style/explode, schema+content both/neither, path-parameter rules, duplicates, example/default violating the schema, example+examples, unknown type/format, array without items, readOnly+writeOnly, uncompilable pattern, ill-formed security schemes, server/variable rules, link/example exclusivity, non-extension extra field per kind, unresolved reference, malformed component name, duplicate operationId, conflicting templates, extensions next to $ref) x every location of the subject's kind found by a kind-aware walker, exactly one violation is introduced; each mutant must be rejected under every option set except the one naming its rule. Distinct = (rule, location class, option set, base); non-trivial = the mutation applied.",
+		Rule: "base documents: hand-written conforming documents (2 variants + documents derived by deleting optional subtrees) using every container (components of 9 kinds, path items, operations, parameters of all locations/styles incl. content-defined, request bodies, responses, headers, media types, encodings, callbacks, links, nested/recursive schemas, 5 security scheme types, servers with variables); each must be accepted under all 9 option sets (option values built once and reused, alone and combined); plus the same document split into a root and a library file holding its components, mutated inside the library components the root reaches. Mutants: for each of ~65 rules (missing required field per kind, illegal in/style/explode, schema+content both/neither, path-parameter rules, duplicates, example/default violating the schema, example+examples, unknown type/format, array without items, readOnly+writeOnly, uncompilable pattern, ill-formed security schemes, server/variable rules, link/example exclusivity, non-extension extra field per kind, unresolved reference, malformed component name, duplicate operationId, conflicting templates, extensions next to $ref) x every location of the subject's kind found by a kind-aware walker, exactly one violation is introduced; each mutant must be rejected under every option set except the one naming its rule. Distinct = (rule, location class, option set, base); non-trivial = the mutation applied.",
 		Assumptions: []string{
 			"the base documents conform by construction (they are also required to be accepted, which the check asserts)",
 			"a mutant rejected already by the loader counts as rejected",
@@ -715,6 +732,7 @@ func runC04(c *core.Ctx) {
 			idx++
 		}
 	}
+	runC04External(c, &idx, optsets, rules)
 }
 
 type c04docRule struct {
@@ -819,7 +837,7 @@ func c04Mutant(c *core.Ctx, bi int, rule c04rule, loc c04loc, doc gen.S, optsets
 			}
 		}
 		mustReject := true
-		if rule.disabled != "" && rule.disabled == os.name {
+		if rule.disabled != "" && (rule.disabled == os.name || strings.HasSuffix(os.name, "+"+rule.disabled)) {
 			mustReject = false
 		}
 		if rule.needs != "" && rule.needs != os.name {
@@ -843,3 +861,176 @@ func c04Mutant(c *core.Ctx, bi int, rule c04rule, loc c04loc, doc gen.S, optsets
 }
 
 var _ = sort.Strings
+
+// ---- a conforming document whose components live in another file ----
+
+// c04External splits base variant 0 into a root (paths, security schemes) and lib.json (every other component); the root's
+// references become lib.json#/components/... . A violation planted in a library component that the root reaches must make
+// Validate(root) fail exactly like the same violation in a component of the root itself.
+func c04External() (root, lib gen.S, reachable map[string]bool) {
+	base := c04Base(0)
+	comps, _ := base["components"].(gen.S)
+	lib = gen.S{"openapi": "3.0.3", "info": gen.S{"title": "lib", "version": "1"}, "paths": gen.S{}, "components": gen.S{}}
+	rootComps := gen.S{}
+	for _, coll := range sortedKeys(comps) {
+		if coll == "securitySchemes" {
+			rootComps[coll] = comps[coll]
+			continue
+		}
+		lib["components"].(gen.S)[coll] = comps[coll]
+	}
+	base["components"] = rootComps
+	// rewrite the root's references (outside its own components) to point into the library
+	var rewrite func(v any)
+	rewrite = func(v any) {
+		switch t := v.(type) {
+		case map[string]any:
+			if r, ok := t["$ref"].(string); ok && strings.HasPrefix(r, "#/components/") && !strings.HasPrefix(r, "#/components/securitySchemes/") {
+				t["$ref"] = "lib.json" + r
+			}
+			for _, k := range sortedKeys(t) {
+				rewrite(t[k])
+			}
+		case []any:
+			for _, x := range t {
+				rewrite(x)
+			}
+		}
+	}
+	rewrite(base["paths"])
+	// components of the library the root reaches (directly or through references inside the library)
+	reachable = map[string]bool{}
+	var refs []string
+	collectRefs(base["paths"], &refs)
+	var visit func(ref string)
+	visit = func(ref string) {
+		i := strings.Index(ref, "#/components/")
+		if i < 0 {
+			return
+		}
+		parts := strings.Split(ref[i+len("#/components/"):], "/")
+		if len(parts) < 2 {
+			return
+		}
+		key := parts[0] + "/" + parts[1]
+		if reachable[key] {
+			return
+		}
+		reachable[key] = true
+		if coll, ok := lib["components"].(gen.S)[parts[0]].(gen.S); ok {
+			var inner []string
+			collectRefs(coll[parts[1]], &inner)
+			for _, r := range inner {
+				visit(r)
+			}
+		}
+	}
+	for _, r := range refs {
+		visit(r)
+	}
+	return base, lib, reachable
+}
+
+func c04ValidateExternal(rootJSON, libJSON []byte, opts []openapi3.ValidationOption) (err error, pi *core.PanicInfo) {
+	pi = core.Guard(func() {
+		l := openapi3.NewLoader()
+		l.IsExternalRefsAllowed = true
+		l.ReadFromURIFunc = func(_ *openapi3.Loader, u *url.URL) ([]byte, error) {
+			if strings.HasSuffix(u.Path, "lib.json") {
+				return libJSON, nil
+			}
+			return nil, fmt.Errorf("no such document %s", u)
+		}
+		var d *openapi3.T
+		if d, err = l.LoadFromDataWithPath(rootJSON, &url.URL{Path: "w/root.json"}); err != nil {
+			err = fmt.Errorf("load: %w", err)
+			return
+		}
+		err = d.Validate(context.Background(), opts...)
+	})
+	return
+}
+
+func runC04External(c *core.Ctx, idx *int, optsets []c04optset, rules []c04rule) {
+	root, lib, reachable := c04External()
+	rootJSON, _ := json.Marshal(root)
+	libJSON, _ := json.Marshal(lib)
+	for _, os := range optsets {
+		if c.Mine(*idx) {
+			c.Eval()
+			err, pi := c04ValidateExternal(rootJSON, libJSON, os.opts)
+			c.Cover("conforming", "external-library/"+os.name)
+			if pi != nil {
+				c.Violate(core.PanicFeatures(pi), c04Witness{Base: 100, Options: os.name}, pi.Stack)
+			} else if err != nil {
+				c.Violate(map[string]string{"kind": "conforming_document_rejected", "options": os.name, "base": "external-library"}, c04Witness{Base: 100, Options: os.name, Got: err.Error(), Want: "accepted", Document: string(rootJSON) + "\n" + string(libJSON)}, fmt.Sprintf("conforming root + library rejected under %s: %v", os.name, err))
+			}
+		}
+		*idx++
+	}
+	locs := c04Walk(lib)
+	for _, rule := range rules {
+		if rule.unload || rule.name == "uncompilable-pattern" || rule.name == "unknown-format" {
+			continue // (the last two need the examples removed, which the root refers to)
+		}
+		for li, loc := range locs {
+			if loc.kind != rule.kind || len(loc.path) < 3 || loc.path[0] != "components" || !reachable[loc.path[1]+"/"+loc.path[2]] {
+				continue
+			}
+			mine := c.Mine(*idx)
+			*idx++
+			if !mine {
+				continue
+			}
+			m := gen.Clone(lib)
+			ml := c04Walk(m)[li]
+			if !rule.apply(ml) {
+				continue
+			}
+			mj, _ := json.Marshal(m)
+			ptr := "lib.json#/" + strings.Join(ml.path, "/")
+			for _, os := range optsets {
+				desc := fmt.Sprintf("base=external-library rule=%s at %s (%s) options=%s", rule.name, ptr, ml.where, os.name)
+				c.BeginLazy(func() string { return desc })
+				c.Eval()
+				err, pi := c04ValidateExternal(rootJSON, mj, os.opts)
+				w := c04Witness{Base: 100, Rule: rule.name, Pointer: ptr, Where: ml.where, Options: os.name, Got: fmt.Sprint(err), Document: string(mj)}
+				if pi != nil {
+					f := core.PanicFeatures(pi)
+					f["rule"] = rule.name
+					c.Violate(f, w, desc+"\n"+pi.Value+"\n"+core.Truncate(pi.Stack, 2500))
+					continue
+				}
+				c.Distinct(fmt.Sprintf("ext|%s|%s|%s", rule.name, ml.where, os.name))
+				c.Cover("rule_x_location", rule.name+" @ external:"+ml.where)
+				if rule.contested != "" && rule.contested == os.name {
+					continue
+				}
+				mustReject := true
+				if rule.disabled != "" && (rule.disabled == os.name || strings.HasSuffix(os.name, "+"+rule.disabled)) {
+					mustReject = false
+				}
+				if rule.needs != "" && rule.needs != os.name {
+					mustReject = false
+				}
+				if err != nil && mustReject {
+					c.Cover("rule_rejected_somewhere", rule.name)
+				}
+				underEncHeaders := "false"
+				for i := 0; i+2 < len(ml.path); i++ {
+					if ml.path[i] == "encoding" && ml.path[i+2] == "headers" {
+						underEncHeaders = "true"
+					}
+				}
+				switch {
+				case mustReject && err == nil:
+					w.Want = "rejected"
+					c.Violate(map[string]string{"kind": "violation_accepted", "rule": rule.name, "where": "external:" + ml.where, "options": os.name, "under_encoding_headers": underEncHeaders}, w, desc+"\nthe root whose referenced library component carries exactly this violation was accepted")
+				case !mustReject && err != nil:
+					w.Want = "accepted (the option names this rule / the rule is not enabled)"
+					c.Violate(map[string]string{"kind": "switched_off_rule_still_rejects", "rule": rule.name, "where": "external:" + ml.where, "options": os.name}, w, desc+"\nerror: "+err.Error())
+				}
+			}
+		}
+	}
+}
